@@ -1,1 +1,321 @@
-(* todo *)
+(** C12 -- proofs about SymbolicModel.jacobian and the simulator's Jacobian closure:
+
+      * layout: row i = equation of the i-th variable, column j = derivative by the j-th variable;
+      * every entry IS the partial derivative of the NUMERIC right-hand side (through the verified
+        formal derivative [D], ExprProofs.D_is_derivative);
+      * the closure binds (time, variable names, parameter names) positionally to (t, x, the numeric
+        parameter values read at call time) -- for the current fact [ThirdNumericByName]; with the
+        pre-fix fact [ThirdParamRecords] every entry that mentions a parameter dies with TypeError;
+      * the concrete function table (FnTab.v) satisfies the hypotheses made about SymPy, and the
+        witnesses used by PropsC12.v. *)
+From Coq Require Import QArith Qabs Lqa Permutation.
+From MxlBase Require Import ListX.
+From Symbolic Require Import Expr ExprProofs SymModel FnTab SymProofs.
+Open Scope Q_scope.
+
+Lemma Forall2_nth {A B} (R : A -> B -> Prop) l1 l2 i b :
+  Forall2 R l1 l2 -> nth_error l2 i = Some b -> exists a, nth_error l1 i = Some a /\ R a b.
+Proof.
+  intros F. revert i. induction F as [|x y l1 l2 Hxy _ IH]; intros [|i] H; cbn [nth_error] in *; try discriminate.
+  - injection H as H. subst. exists x. split; [reflexivity|exact Hxy].
+  - apply IH. exact H.
+Qed.
+
+Lemma Forall2_nth_both {A B} (R : A -> B -> Prop) l1 l2 i a b :
+  Forall2 R l1 l2 -> nth_error l1 i = Some a -> nth_error l2 i = Some b -> R a b.
+Proof.
+  intros F Ha Hb. destruct (Forall2_nth R l1 l2 i b F Hb) as [a' [E Hr]]. rewrite Ha in E. injection E as E. subst. exact Hr.
+Qed.
+
+Lemma NoDup_app_parts {A} (a b : list A) :
+  NoDup (a ++ b) -> NoDup a /\ NoDup b /\ (forall x, In x a -> In x b -> False).
+Proof.
+  induction a as [|y a IH]; cbn [app]; intros H.
+  - split; [constructor|]. split; [exact H|]. intros x [].
+  - inversion H as [|? ? Hnot Hnd]; subst. destruct (IH Hnd) as [H1 [H2 H3]].
+    split; [constructor; [intros Hy; apply Hnot; apply in_or_app; left; exact Hy|exact H1]|].
+    split; [exact H2|]. intros x [Hx|Hx] Hb; [subst; apply Hnot; apply in_or_app; right; exact Hb|exact (H3 x Hx Hb)].
+Qed.
+
+(** ---- layout ------------------------------------------------------------------------------ *)
+Lemma jacobian_layout sdiff eqs vars i j e x :
+  nth_error eqs i = Some e -> nth_error vars j = Some x ->
+  exists row, nth_error (jacobian sdiff eqs vars) i = Some row /\ nth_error row j = Some (sdiff x e).
+Proof.
+  intros He Hx. unfold jacobian. exists (map (fun v => sdiff v e) vars). split.
+  - exact (map_nth_error (fun e0 => map (fun v => sdiff v e0) vars) i eqs He).
+  - exact (map_nth_error (fun v => sdiff v e) j vars Hx).
+Qed.
+
+Lemma jacobian_shape sdiff eqs vars :
+  length (jacobian sdiff eqs vars) = length eqs /\ forall row, In row (jacobian sdiff eqs vars) -> length row = length vars.
+Proof.
+  unfold jacobian. split; [apply map_length|]. intros row H. apply in_map_iff in H. destruct H as [e [H _]]. subst. apply map_length.
+Qed.
+
+(** ---- the Jacobian is the derivative of the numeric right-hand side -------------------------- *)
+Section Derivative.
+  Variable fsym : fnid -> list expr -> option expr.
+  Variable fsem : fnid -> list Q -> Q.
+  Variable sdiff : name -> expr -> expr.
+  Hypothesis fsym_sound : forall f es e env, fsym f es = Some e -> eval env e == fsem f (map (eval env) es).
+  Hypothesis fsem_proper : forall f vs ws, Forall2 Qeq vs ws -> fsem f vs == fsem f ws.
+  Hypothesis fsym_syms : forall f es e, fsym f es = Some e -> forall n, In n (syms e) -> exists e', In e' es /\ In n (syms e').
+  (** SymPy's differentiation agrees in value with the verified formal derivative *)
+  Hypothesis sdiff_ok : forall x e env, eval env (sdiff x e) == eval env (D x e).
+
+  Theorem jacobian_is_derivative F m eqs env :
+    to_symbolic fsym F m = SymOk eqs -> Resolved fsem m env ->
+    forall i j vi xj, nth_error (m_vars m) i = Some vi -> nth_error (m_vars m) j = Some xj ->
+    exists row d, nth_error (jacobian sdiff eqs (m_vars m)) i = Some row /\ nth_error row j = Some d /\
+      exists B, 0 <= B /\
+        forall h env', Qabs h <= 1 -> Resolved fsem m env' ->
+          (forall n, In n (base_names m) -> env' n == upd env xj (env xj + h) n) ->
+          Qabs (num_rhs fsem m env' vi - num_rhs fsem m env vi - h * eval env d) <= B * (h * h).
+  Proof.
+    intros Hconv Hres i j vi xj Hi Hj.
+    pose proof (to_symbolic_sound fsym fsem fsym_sound fsem_proper env F m eqs Hres Hconv) as Hs.
+    destruct (Forall2_nth _ _ _ i vi Hs Hi) as [e [He Hev]].
+    destruct (jacobian_layout sdiff eqs (m_vars m) i j e xj He Hj) as [row [Hrow Hd]].
+    exists row, (sdiff xj e). split; [exact Hrow|]. split; [exact Hd|].
+    destruct (D_is_derivative xj env e) as [B [HB Hb]].
+    exists B. split; [exact HB|]. intros h env' Hh Hres' Hagree.
+    pose proof (to_symbolic_sound fsym fsem fsym_sound fsem_proper env' F m eqs Hres' Hconv) as Hs'.
+    pose proof (Forall2_nth_both _ _ _ i e vi Hs' He Hi) as Hev'. cbn beta in Hev'.
+    assert (Hsy : incl (syms e) (base_names m)).
+    { eapply (to_symbolic_syms fsym fsym_syms F m eqs Hconv). eapply nth_error_In. exact He. }
+    assert (E1 : num_rhs fsem m env' vi == eval (upd env xj (env xj + h)) e).
+    { rewrite <- Hev'. apply eval_ext. intros n Hn. apply Hagree. apply Hsy. exact Hn. }
+    rewrite E1. rewrite <- Hev. rewrite (sdiff_ok xj e env). apply Hb. exact Hh.
+  Qed.
+End Derivative.
+
+(** ---- the closure ------------------------------------------------------------------------------ *)
+Lemma In_lookup_NoDup {A} (l : list (name * A)) k v : NoDup (map fst l) -> In (k, v) l -> lookup k l = Some v.
+Proof.
+  induction l as [|[k' v'] l IH]; cbn [map fst lookup]; intros Hnd Hin; [destruct Hin|].
+  inversion Hnd as [|? ? Hnot Hnd']; subst.
+  destruct Hin as [Hin|Hin].
+  - injection Hin as H1 H2. subst. rewrite N.eqb_refl. reflexivity.
+  - destruct (N.eqb k' k) eqn:E.
+    + apply N.eqb_eq in E. subst k'. exfalso. apply Hnot. apply in_map_iff. exists (k, v). split; [reflexivity|exact Hin].
+    + apply IH; assumption.
+Qed.
+
+Lemma lookup_all_self {A} (l : list (name * A)) : NoDup (map fst l) ->
+  forall l', incl l' l -> lookup_all l (map fst l') = Some (map snd l').
+Proof.
+  intros Hnd l'. induction l' as [|[k v] l' IH]; intros Hin; cbn [map fst snd lookup_all]; [reflexivity|].
+  rewrite (In_lookup_NoDup l k v Hnd (Hin _ (or_introl eq_refl))).
+  rewrite IH; [reflexivity|]. intros z Hz. apply Hin. right. exact Hz.
+Qed.
+
+Lemma bind_map {A} (f : A -> name) (g : A -> pyval) l :
+  bind (map f l) (map g l) = Some (map (fun a => (f a, g a)) l).
+Proof. induction l as [|a l IH]; cbn [map bind]; [reflexivity|rewrite IH; reflexivity]. Qed.
+
+Lemma combine_fst_snd {A B} (a : list A) (b : list B) :
+  length a = length b -> map fst (combine a b) = a /\ map snd (combine a b) = b.
+Proof.
+  revert b. induction a as [|x a IH]; intros [|y b] H; cbn [length] in H; try discriminate; cbn [combine map fst snd].
+  - split; reflexivity.
+  - injection H as H. destruct (IH b H) as [H1 H2]. rewrite H1, H2. split; reflexivity.
+Qed.
+
+Lemma eval_py_num pyenv env e :
+  (forall n, In n (syms e) -> lookup n pyenv = Some (VNum (env n))) -> eval_py pyenv e = inr (eval env e).
+Proof.
+  induction e as [q|n|a IHa b IHb|a IHa b IHb]; cbn [eval_py eval syms]; intros H.
+  - reflexivity.
+  - rewrite (H n (or_introl eq_refl)). reflexivity.
+  - rewrite IHa, IHb; [reflexivity| |]; intros n Hn; apply H; apply in_or_app; auto.
+  - rewrite IHa, IHb; [reflexivity| |]; intros n Hn; apply H; apply in_or_app; auto.
+Qed.
+
+Lemma eval_row_num pyenv env row :
+  (forall e, In e row -> forall n, In n (syms e) -> lookup n pyenv = Some (VNum (env n))) ->
+  eval_row pyenv row = inr (map (eval env) row).
+Proof.
+  induction row as [|e row IH]; cbn [eval_row map]; intros H; [reflexivity|].
+  rewrite (eval_py_num pyenv env e (H e (or_introl eq_refl))).
+  rewrite IH; [reflexivity|]. intros e' He'. apply H. right. exact He'.
+Qed.
+
+Lemma eval_matrix_num pyenv env mat :
+  (forall row e, In row mat -> In e row -> forall n, In n (syms e) -> lookup n pyenv = Some (VNum (env n))) ->
+  eval_matrix pyenv mat = inr (map (map (eval env)) mat).
+Proof.
+  induction mat as [|row mat IH]; cbn [eval_matrix map]; intros H; [reflexivity|].
+  rewrite (eval_row_num pyenv env row (fun e He => H row e (or_introl eq_refl) He)).
+  rewrite IH; [reflexivity|]. intros r e Hr. apply H. right. exact Hr.
+Qed.
+
+(** the assignment the closure is SUPPOSED to evaluate the Jacobian under: time is t, the i-th
+    variable is x_i, a parameter is its numeric value in the model at call time *)
+Definition bound_env (t : Q) (vn : list name) (x : list Q) (pars : list (name * pval)) : name -> Q :=
+  fun n =>
+    if N.eqb n time_name then t
+    else match lookup n (combine vn x) with
+         | Some q => q
+         | None => match lookup n pars with Some p => pval_num p | None => 0 end
+         end.
+
+Theorem closure_binding F m jac vn pn t x :
+  sf_third F = ThirdNumericByName ->
+  pn = map fst (m_pars m) ->                      (* the parameters are those present at construction *)
+  NoDup (time_name :: vn ++ pn) ->
+  length x = length vn ->
+  (forall row e, In row jac -> In e row -> incl (syms e) (time_name :: vn ++ pn)) ->
+  call_closure F m (JacFn jac vn pn) t x = CMat (map (map (eval (bound_env t vn x (m_pars m)))) jac).
+Proof.
+  intros HF Hpn Hnd Hlen Hsyms. unfold call_closure, third_arg. rewrite HF.
+  set (pars := m_pars m) in *.
+  inversion Hnd as [|? ? Htime Hnd']; subst.
+  destruct (NoDup_app_parts _ _ Hnd') as [Hndv [Hndp Hdisj]].
+  rewrite (lookup_all_self pars Hndp pars (incl_refl _)). cbn [option_map].
+  destruct (combine_fst_snd vn x (eq_sym Hlen)) as [Hc1 Hc2].
+  set (c := combine vn x) in *.
+  rewrite <- Hc1 at 1. rewrite <- Hc2 at 1. rewrite !map_map. rewrite !bind_map.
+  set (bv := map (fun a : name * Q => (fst a, VNum (snd a))) c).
+  set (bp := map (fun a : name * pval => (fst a, VNum (pval_num (snd a)))) pars).
+  rewrite (eval_matrix_num (closure_env t bv bp) (bound_env t vn x pars) jac); [reflexivity|].
+  intros row e Hrow He n Hn.
+  assert (Hkeys : map fst (closure_env t bv bp) = rev (map fst pars) ++ rev vn ++ [time_name]).
+  { unfold closure_env. rewrite !map_app, !map_rev. unfold bv, bp. rewrite !map_map. cbn [fst map].
+    rewrite <- Hc1. reflexivity. }
+  assert (Hndk : NoDup (map fst (closure_env t bv bp))).
+  { rewrite Hkeys. eapply Permutation_NoDup; [|exact Hnd].
+    rewrite app_assoc. eapply perm_trans; [|apply Permutation_cons_append].
+    constructor. eapply perm_trans; [apply Permutation_app_comm|].
+    apply Permutation_app; apply Permutation_rev. }
+  apply In_lookup_NoDup; [exact Hndk|].
+  unfold closure_env, bound_env. fold c.
+  pose proof (Hsyms row e Hrow He n Hn) as Hin. destruct Hin as [Hin|Hin].
+  - subst n. rewrite N.eqb_refl. apply in_or_app. right. apply in_or_app. right. left. reflexivity.
+  - assert (Hne : N.eqb n time_name = false).
+    { apply N.eqb_neq. intros E. subst n. exact (Htime Hin). }
+    rewrite Hne. apply in_app_or in Hin. destruct Hin as [Hin|Hin].
+    + (* a variable *)
+      rewrite <- Hc1 in Hin. apply in_map_iff in Hin. destruct Hin as [[k q] [Hk Hkq]]. cbn [fst] in Hk. subst k.
+      assert (Hndc : NoDup (map fst c)) by (rewrite Hc1; exact Hndv).
+      rewrite (In_lookup_NoDup c n q Hndc Hkq).
+      apply in_or_app. right. apply in_or_app. left. apply -> in_rev. unfold bv.
+      apply in_map_iff. exists (n, q). split; [reflexivity|exact Hkq].
+    + (* a parameter *)
+      assert (Hnv : lookup n c = None).
+      { apply lookup_None. rewrite Hc1. intros Hv.
+        exact (Hdisj n Hv Hin). }
+      rewrite Hnv. apply in_map_iff in Hin. destruct Hin as [[k p] [Hk Hkp]]. cbn [fst] in Hk. subst k.
+      rewrite (In_lookup_NoDup pars n p Hndp Hkp).
+      apply in_or_app. left. apply -> in_rev. unfold bp.
+      apply in_map_iff. exists (n, p). split; [reflexivity|exact Hkp].
+Qed.
+
+(** what [bound_env] binds, spelled out (used to read the theorem; NoDup as above) *)
+Lemma bound_env_time t vn x pars : bound_env t vn x pars time_name = t.
+Proof. unfold bound_env. rewrite N.eqb_refl. reflexivity. Qed.
+
+Lemma bound_env_var t vn x pars i v q :
+  NoDup (time_name :: vn ++ map fst pars) -> length x = length vn ->
+  nth_error vn i = Some v -> nth_error x i = Some q -> bound_env t vn x pars v = q.
+Proof.
+  intros Hnd Hlen Hv Hq. inversion Hnd as [|? ? Htime Hnd']; subst.
+  unfold bound_env.
+  assert (Hne : N.eqb v time_name = false).
+  { apply N.eqb_neq. intros E. subst v. apply Htime. apply in_or_app. left. eapply nth_error_In. exact Hv. }
+  rewrite Hne.
+  destruct (combine_fst_snd vn x (eq_sym Hlen)) as [Hc1 Hc2].
+  assert (Hin : In (v, q) (combine vn x)).
+  { clear - Hv Hq. revert x i Hv Hq. induction vn as [|a vn IH]; intros [|b x] [|i] Hv Hq; cbn [nth_error combine] in *; try discriminate.
+    - injection Hv as Hv. injection Hq as Hq. subst. left. reflexivity.
+    - right. eapply IH; eassumption. }
+  rewrite (In_lookup_NoDup (combine vn x) v q); [reflexivity| |exact Hin].
+  rewrite Hc1. exact (proj1 (NoDup_app_parts _ _ Hnd')).
+Qed.
+
+Lemma bound_env_par t vn x pars k p :
+  NoDup (time_name :: vn ++ map fst pars) -> length x = length vn ->
+  In (k, p) pars -> bound_env t vn x pars k = pval_num p.
+Proof.
+  intros Hnd Hlen Hin. inversion Hnd as [|? ? Htime Hnd']; subst.
+  assert (Hk : In k (map fst pars)) by (apply in_map_iff; exists (k, p); split; [reflexivity|exact Hin]).
+  unfold bound_env.
+  assert (Hne : N.eqb k time_name = false).
+  { apply N.eqb_neq. intros E. subst k. apply Htime. apply in_or_app. right. exact Hk. }
+  rewrite Hne.
+  destruct (combine_fst_snd vn x (eq_sym Hlen)) as [Hc1 Hc2].
+  assert (Hnv : lookup k (combine vn x) = None).
+  { apply lookup_None. rewrite Hc1. intros Hv. exact (proj2 (proj2 (NoDup_app_parts _ _ Hnd')) k Hv Hk). }
+  rewrite Hnv. rewrite (In_lookup_NoDup pars k p); [reflexivity| |exact Hin].
+  exact (proj1 (proj2 (NoDup_app_parts _ _ Hnd'))).
+Qed.
+
+(** a refused conversion leaves the simulator without Jacobian (after the warning) *)
+Lemma fallback fsym sdiff F m e :
+  to_symbolic fsym F m = SymErr e ->
+  init_jac fsym sdiff F m = JacNone e /\
+  forall m' t x, call_closure F m' (init_jac fsym sdiff F m) t x = CNoJac.
+Proof. intros H. unfold init_jac. rewrite H. split; [reflexivity|]. intros m' t x. reflexivity. Qed.
+
+Lemma init_jac_ok fsym sdiff F m eqs :
+  to_symbolic fsym F m = SymOk eqs ->
+  init_jac fsym sdiff F m = JacFn (jacobian sdiff eqs (m_vars m)) (m_vars m) (map fst (m_pars m)).
+Proof. intros H. unfold init_jac. rewrite H. reflexivity. Qed.
+
+(** ======================================================================================== *)
+(** the concrete table satisfies what is assumed of SymPy *)
+Lemma nth_Forall2_Qeq vs ws : Forall2 Qeq vs ws -> forall i, nth i vs 0 == nth i ws 0.
+Proof.
+  intros F. induction F as [|v w vs ws Hvw _ IH]; intros [|i]; cbn [nth]; try reflexivity; [exact Hvw|apply IH].
+Qed.
+
+Lemma subst_sound es body : forall e env,
+  subst es body = Some e -> eval env e == eval (fun i => nth (N.to_nat i) (map (eval env) es) 0) body.
+Proof.
+  induction body as [q|n|a IHa b IHb|a IHa b IHb]; cbn [subst eval]; intros e env H.
+  - injection H as H. subst. reflexivity.
+  - rewrite (nth_error_nth _ _ 0 (map_nth_error (eval env) _ _ H)). reflexivity.
+  - destruct (subst es a) as [a'|]; [|discriminate]. destruct (subst es b) as [b'|]; [|discriminate].
+    injection H as H. subst. cbn [eval]. rewrite (IHa a' env eq_refl), (IHb b' env eq_refl). reflexivity.
+  - destruct (subst es a) as [a'|]; [|discriminate]. destruct (subst es b) as [b'|]; [|discriminate].
+    injection H as H. subst. cbn [eval]. rewrite (IHa a' env eq_refl), (IHb b' env eq_refl). reflexivity.
+Qed.
+
+Lemma fsym_lib_sound f es e env : fsym_lib f es = Some e -> eval env e == fsem_lib f (map (eval env) es).
+Proof.
+  unfold fsym_lib, fsem_lib. destruct (fn_table f) as [[ar body]|]; [|discriminate].
+  destruct (Nat.eqb (length es) ar); [|discriminate]. apply subst_sound.
+Qed.
+
+Lemma fsem_lib_proper f vs ws : Forall2 Qeq vs ws -> fsem_lib f vs == fsem_lib f ws.
+Proof.
+  intros F. unfold fsem_lib. destruct (fn_table f) as [[ar body]|]; [|reflexivity].
+  apply eval_ext. intros n _. apply nth_Forall2_Qeq. exact F.
+Qed.
+
+Lemma subst_syms es body : forall e, subst es body = Some e ->
+  forall n, In n (syms e) -> exists e', In e' es /\ In n (syms e').
+Proof.
+  induction body as [q|i|a IHa b IHb|a IHa b IHb]; cbn [subst]; intros e H n Hn.
+  - injection H as H. subst. destruct Hn.
+  - exists e. split; [eapply nth_error_In; exact H|exact Hn].
+  - destruct (subst es a) as [a'|]; [|discriminate]. destruct (subst es b) as [b'|]; [|discriminate].
+    injection H as H. subst. cbn [syms] in Hn. apply in_app_or in Hn.
+    destruct Hn as [Hn|Hn]; [exact (IHa a' eq_refl n Hn)|exact (IHb b' eq_refl n Hn)].
+  - destruct (subst es a) as [a'|]; [|discriminate]. destruct (subst es b) as [b'|]; [|discriminate].
+    injection H as H. subst. cbn [syms] in Hn. apply in_app_or in Hn.
+    destruct Hn as [Hn|Hn]; [exact (IHa a' eq_refl n Hn)|exact (IHb b' eq_refl n Hn)].
+Qed.
+
+Lemma fsym_lib_syms f es e : fsym_lib f es = Some e -> forall n, In n (syms e) -> exists e', In e' es /\ In n (syms e').
+Proof.
+  unfold fsym_lib. destruct (fn_table f) as [[ar body]|]; [|discriminate].
+  destruct (Nat.eqb (length es) ar); [|discriminate]. apply subst_syms.
+Qed.
+
+Lemma Forall2_qlist_eqb {A B} (f : A -> Q) (g : B -> Q) l1 l2 :
+  Forall2 (fun a b => f a == g b) l1 l2 -> qlist_eqb (map f l1) (map g l2) = true.
+Proof.
+  intros F. induction F as [|a b l1 l2 H _ IH]; cbn [map qlist_eqb]; [reflexivity|].
+  rewrite IH. apply Qeq_bool_iff in H. rewrite H. reflexivity.
+Qed.
